@@ -252,9 +252,9 @@ func (enc *jsonEncoder) appendComplex(val complex128, precision int) {
 	// Because we're always in a quoted string, we can use strconv without
 	// special-casing NaN and +/-Inf.
 	enc.buf.AppendFloat(r, precision)
-	// If imaginary part is less than 0, minus (-) sign is added by default
-	// by AppendFloat.
-	if i >= 0 {
+	// AppendFloat writes a sign of its own for negative numbers (including
+	// negative zero) and for +Inf; add the plus sign in all other cases.
+	if math.IsNaN(i) || (!math.Signbit(i) && !math.IsInf(i, 1)) {
 		enc.buf.AppendByte('+')
 	}
 	enc.buf.AppendFloat(i, precision)
